@@ -9,7 +9,7 @@ PID = "C01"
 
 def _shapes(run, g, np, n):
     res = tlc.must(tlc.run("Trees", "Trees_shape.cfg", constants=bases.tla_consts(bases.SHIPPED["core_maths"], n),
-                           workers=1), "ShapeSpec n=%d" % n)
+                           workers=1 if n < 7 else 12, timeout=5400, heap="8g"), "ShapeSpec n=%d" % n)
     run.add_tlc(res, "shape_n%d" % n)
     for v in res["violated"]:
         run.violation("model:%s:n%d" % (v, n), "Trees.tla invariant %s violated at n=%d (design of the placement machine/filter)" % (v, n))
